@@ -116,11 +116,13 @@ func run(c *vf.Ctx) {
 	var mu sync.Mutex
 	sampled := 0
 	only := os.Getenv("C36_ONLY") // debugging aid: run one scenario index on every cell
-	vf.Parallel(nScen, c.N(5, 6), func(i int) {
+	vf.Parallel(nScen, 8, func(i int) {
 		if only != "" && only != fmt.Sprint(i) {
 			return
 		}
+		t0 := time.Now()
 		sc := e.build(i)
+		c.Count("info_ms_build", int(time.Since(t0).Milliseconds()))
 		if sc == nil {
 			return
 		}
@@ -138,7 +140,9 @@ func run(c *vf.Ctx) {
 		}
 		for k := 0; k < nc; k++ {
 			cl := e.cells[(i*perScen+k)%len(e.cells)]
+			t1 := time.Now()
 			res := e.exchange(sc, cl, k, e.base)
+			c.Count("info_ms_exchange_"+cl.Client, int(time.Since(t1).Milliseconds()))
 			if res.timeout {
 				c.Count("timeouts_first_budget", 1)
 				res = e.exchange(sc, cl, 100+k, 10*e.base)
@@ -147,7 +151,9 @@ func run(c *vf.Ctx) {
 					continue
 				}
 			}
+			t2 := time.Now()
 			e.judge(sc, cl, res)
+			c.Count("info_ms_judge", int(time.Since(t2).Milliseconds()))
 			mu.Lock()
 			if sampled < 4 && res.err == "" && k == 0 {
 				sampled++
